@@ -10,7 +10,7 @@ Proof. reflexivity. Qed.
 Theorem pipeline_is_escape T p ml :
   single_sub p ml = Some (excl T ml) -> forall s, run_pipeline (esc_table T) p ml s = escape T ml s.
 Proof.
-  unfold single_sub, run_pipeline. destruct (effective p ml) as [|[ex|o n|ex n] [|st r]]; try discriminate.
+  unfold single_sub, run_pipeline. destruct (effective p ml) as [|[ex|o n|ex n|ex la] [|st r]]; try discriminate.
   intros H s. inversion H; subst. reflexivity.
 Qed.
 
@@ -33,4 +33,13 @@ Example limited_substitution_not_charwise_refuted :
   is_single_sub [(PAlways, PSubN [] 2)] false = false
   /\ run_pipeline pp_table [(PAlways, PSubN [] 2)] false [34; 34; 34] = [92; 34; 92; 34; 34]
   /\ run_pipeline pp_table [(PAlways, PSub [])] false [34; 34; 34] = [92; 34; 92; 34; 92; 34].
+Proof. vm_compute. repeat split; reflexivity. Qed.
+
+(** A substitution with a look-ahead is not the per-character map either: with the alternative CR(?!LF) the CR of a CR LF pair
+    stays raw, a lone CR is escaped. *)
+Definition la_table : list (char * char) := [(110, 10); (114, 13); (92, 92); (34, 34)].
+Example lookahead_substitution_not_charwise_refuted :
+  is_single_sub [(PAlways, PSubLA [10] [(13, 10)])] true = false
+  /\ run_pipeline la_table [(PAlways, PSubLA [10] [(13, 10)])] true [13; 10; 13] = [13; 10; 92; 114]
+  /\ run_pipeline la_table [(PAlways, PSub [10])] true [13; 10; 13] = [92; 114; 10; 92; 114].
 Proof. vm_compute. repeat split; reflexivity. Qed.
